@@ -131,3 +131,67 @@ package atree
 //@        countSum == ite(i > 0, old(a.childrenCountSum)[leftChildrenCount + i - 1] - leftCount, 0) &&
 //@        (i > 0 ==> rightSlab.childrenCountSum[0] == rightSlab.childrenHeaders[0].count) &&
 //@        (forall k :: 1 <= k && k < i ==> rightSlab.childrenCountSum[k] == rightSlab.childrenCountSum[k - 1] + rightSlab.childrenHeaders[k].count)
+
+//@ # LendToRight / BorrowFromRight of index slabs: contracts stated here; bodies not yet verified (trusted, listed in evidence)
+//@ func (a *ArrayMetaDataSlab) LendToRight(slab) (err)  serves C01 C05 C06
+//@   trusted "body not yet verified by govc"
+//@   requires is(slab, *ArrayMetaDataSlab) && a != slab && wfMeta(a) && wfMeta(as(slab, *ArrayMetaDataSlab))
+//@   requires a.header.size <= maxThreshold && as(slab, *ArrayMetaDataSlab).header.size < minThreshold
+//@   requires canLendMeta(a, minThreshold - as(slab, *ArrayMetaDataSlab).header.size)
+//@   requires a.header.count + as(slab, *ArrayMetaDataSlab).header.count <= 4294967295
+//@   ensures err == nil && wfMeta(a) && wfMeta(as(slab, *ArrayMetaDataSlab)) && inBandMeta(a) && inBandMeta(as(slab, *ArrayMetaDataSlab))
+//@   ensures len(a.childrenHeaders) + len(as(slab, *ArrayMetaDataSlab).childrenHeaders) == len(old(a.childrenHeaders)) + len(old(as(slab, *ArrayMetaDataSlab).childrenHeaders)) &&
+//@        len(a.childrenHeaders) <= len(old(a.childrenHeaders)) &&
+//@        (forall k :: 0 <= k && k < len(a.childrenHeaders) ==> a.childrenHeaders[k] == old(a.childrenHeaders)[k]) &&
+//@        (forall k :: 0 <= k && k < len(old(a.childrenHeaders)) - len(a.childrenHeaders) ==> as(slab, *ArrayMetaDataSlab).childrenHeaders[k] == old(a.childrenHeaders)[len(a.childrenHeaders) + k]) &&
+//@        (forall k :: 0 <= k && k < len(old(as(slab, *ArrayMetaDataSlab).childrenHeaders)) ==> as(slab, *ArrayMetaDataSlab).childrenHeaders[len(old(a.childrenHeaders)) - len(a.childrenHeaders) + k] == old(as(slab, *ArrayMetaDataSlab).childrenHeaders)[k])
+//@   ensures a.header.count + as(slab, *ArrayMetaDataSlab).header.count == old(a.header.count) + old(as(slab, *ArrayMetaDataSlab).header.count) &&
+//@        a.header.slabID == old(a.header.slabID) && as(slab, *ArrayMetaDataSlab).header.slabID == old(as(slab, *ArrayMetaDataSlab).header.slabID)
+//@   modifies a.childrenHeaders, a.childrenCountSum, a.header, as(slab, *ArrayMetaDataSlab).childrenHeaders, as(slab, *ArrayMetaDataSlab).childrenCountSum, as(slab, *ArrayMetaDataSlab).header, ghost.touched
+
+//@ func (a *ArrayMetaDataSlab) BorrowFromRight(slab) (err)  serves C01 C05 C06
+//@   trusted "body not yet verified by govc"
+//@   requires is(slab, *ArrayMetaDataSlab) && a != slab && wfMeta(a) && wfMeta(as(slab, *ArrayMetaDataSlab))
+//@   requires as(slab, *ArrayMetaDataSlab).header.size <= maxThreshold && a.header.size < minThreshold
+//@   requires canLendMeta(as(slab, *ArrayMetaDataSlab), minThreshold - a.header.size)
+//@   requires a.header.count + as(slab, *ArrayMetaDataSlab).header.count <= 4294967295
+//@   ensures err == nil && wfMeta(a) && wfMeta(as(slab, *ArrayMetaDataSlab)) && inBandMeta(a) && inBandMeta(as(slab, *ArrayMetaDataSlab))
+//@   ensures len(a.childrenHeaders) + len(as(slab, *ArrayMetaDataSlab).childrenHeaders) == len(old(a.childrenHeaders)) + len(old(as(slab, *ArrayMetaDataSlab).childrenHeaders)) &&
+//@        len(a.childrenHeaders) >= len(old(a.childrenHeaders)) &&
+//@        (forall k :: 0 <= k && k < len(old(a.childrenHeaders)) ==> a.childrenHeaders[k] == old(a.childrenHeaders)[k]) &&
+//@        (forall k :: len(old(a.childrenHeaders)) <= k && k < len(a.childrenHeaders) ==> a.childrenHeaders[k] == old(as(slab, *ArrayMetaDataSlab).childrenHeaders)[k - len(old(a.childrenHeaders))]) &&
+//@        (forall k :: 0 <= k && k < len(as(slab, *ArrayMetaDataSlab).childrenHeaders) ==> as(slab, *ArrayMetaDataSlab).childrenHeaders[k] == old(as(slab, *ArrayMetaDataSlab).childrenHeaders)[k + len(a.childrenHeaders) - len(old(a.childrenHeaders))])
+//@   ensures a.header.count + as(slab, *ArrayMetaDataSlab).header.count == old(a.header.count) + old(as(slab, *ArrayMetaDataSlab).header.count) &&
+//@        a.header.slabID == old(a.header.slabID) && as(slab, *ArrayMetaDataSlab).header.slabID == old(as(slab, *ArrayMetaDataSlab).header.slabID)
+//@   modifies a.childrenHeaders, a.childrenCountSum, a.header, as(slab, *ArrayMetaDataSlab).childrenHeaders, as(slab, *ArrayMetaDataSlab).childrenCountSum, as(slab, *ArrayMetaDataSlab).header, ghost.touched
+
+//@ # ---- unified view of a child (leaf or index slab)
+
+//@ pred isArr(c ArraySlab) = c != nil && (is(c, *ArrayDataSlab) || is(c, *ArrayMetaDataSlab))
+
+//@ # a non-root child in the state its own operations expect
+//@ pred nodeWF(c ArraySlab) = ite(is(c, *ArrayDataSlab), plainADS(as(c, *ArrayDataSlab)),
+//@      wfMeta(as(c, *ArrayMetaDataSlab)) && as(c, *ArrayMetaDataSlab).extraData == nil)
+
+//@ pred hdrBand(h ArraySlabHeader) = minThreshold <= h.size && h.size <= maxThreshold
+
+//@ # a is stored under its own id, its headers agree with the stored children, children ids are pairwise distinct
+//@ pred metaLinked(a *ArrayMetaDataSlab) = sto[a.header.slabID] == a && a.header.slabID != SlabIDUndefined && agree(a) && distinctChildren(a)
+
+//@ func (a *ArrayMetaDataSlab) SplitChildSlab(storage, child, chi) (err)  serves C01 C03 C05 C06 C09
+//@   requires storage != nil && wfMeta(a) && metaLinked(a) && 0 <= chi && chi < len(a.childrenHeaders)
+//@   requires isArr(child) && child == sto[a.childrenHeaders[chi].slabID] && nodeWF(child) && a.header.size + 14 <= 4294967295
+//@   requires is(child, *ArrayDataSlab) ==> elemsFit(as(child, *ArrayDataSlab)) && hdrOf(child).size > maxThreshold && hdrOf(child).size <= maxThreshold + maxInlineArrayElementSize
+//@   requires is(child, *ArrayMetaDataSlab) ==> hdrOf(child).size > maxThreshold && hdrOf(child).size <= maxThreshold + 14
+//@   ensures err != nil ==> categorised(err)
+//@   ensures[C06] err == nil ==> wfMeta(a) && a.header.count == old(a.header.count) && a.header.slabID == old(a.header.slabID)
+//@   ensures[C09] err == nil ==> metaLinked(a)
+//@   ensures[C01] err == nil ==> len(a.childrenHeaders) == len(old(a.childrenHeaders)) + 1 &&
+//@        (forall k :: 0 <= k && k < chi ==> a.childrenHeaders[k] == old(a.childrenHeaders)[k]) &&
+//@        (forall k :: chi + 1 < k && k < len(a.childrenHeaders) ==> a.childrenHeaders[k] == old(a.childrenHeaders)[k - 1]) &&
+//@        a.childrenHeaders[chi].count + a.childrenHeaders[chi + 1].count == old(a.childrenHeaders)[chi].count
+//@   ensures[C05] err == nil ==> hdrBand(a.childrenHeaders[chi]) && hdrBand(a.childrenHeaders[chi + 1]) && nodeWF(sto[a.childrenHeaders[chi].slabID]) && nodeWF(sto[a.childrenHeaders[chi + 1].slabID])
+//@   ensures[C03] err == nil ==> has(stored, a) && has(stored, sto[a.childrenHeaders[chi].slabID]) && has(stored, sto[a.childrenHeaders[chi + 1].slabID])
+//@   modifies a.childrenHeaders, a.childrenCountSum, a.header, ghost.sto, ghost.stored, ghost.touched, alloc,
+//@        as(child, *ArrayDataSlab).elements, as(child, *ArrayDataSlab).header, as(child, *ArrayDataSlab).next,
+//@        as(child, *ArrayMetaDataSlab).childrenHeaders, as(child, *ArrayMetaDataSlab).childrenCountSum, as(child, *ArrayMetaDataSlab).header
